@@ -113,6 +113,23 @@ def run(ctx, prog, res):
                 if flow.call_name(t).endswith("UniqueSortedVec::<T>::union"):
                     merged.append(f.id)
     r4.check(not merged, {"comment_merges_in_interval_iterator": 0}, "C17.R4:no-merge", "the interval iterator merges comments in %s" % merged)
+    # the first interval is the period *containing* the start instant: the periods of the first day skipped before
+    # iteration starts are exactly those whose range does not contain the start time
+    tnew = prog.require_fn("opening_hours::opening_hours::TimeDomainIterator::<L>::new")
+    skips = []
+    for bb, t in tnew.calls():
+        if len(t["args"]) == 2 and flow.call_name(t).endswith("Option::<T>::map"):
+            clo = flow.closure_of_operand(tnew, t["args"][1])
+            if clo in prog.fns and re.search(r"Peekable::peek\(", flow.shape(tnew, t["args"][0], depth=4)):
+                caps = [flow.shape(tnew, x, depth=6) for x in flow.closure_captures(tnew, t["args"][1])]
+                skips.append((flow.shape(prog.fns[clo], 0, depth=6), caps))
+    ok = len(skips) == 1
+    if ok:
+        body, caps = skips[0]
+        m = re.fullmatch(r"Not\((?:\w+::)*contains\(p2\.range, \*?p1\.(\d+)\)\)", body)
+        ok = m is not None and int(m.group(1)) < len(caps) and re.search(r"::time\(p2\)", caps[int(m.group(1))]) is not None
+    r4.check(ok, {"fn": tnew.id.split("::")[-2] + "::new", "periods_skipped_at_start": "those whose range does not contain the start time", "predicate": skips[:1]}, "C17.R4:start-period",
+             "TimeDomainIterator::new does not skip exactly the periods that do not contain the start time (found %s): started on a period boundary, range iteration begins with the period that just ended - an empty first interval carrying that period's kind and comments" % (skips[:2],), lib.where_of(tnew))
     cu = prog.require_fn("opening_hours::opening_hours::TimeDomainIterator::<L>::consume_until_next_kind")
     got = lib.reads(prog, cu.id, "opening_hours::schedule::TimeRange")
     r4.check(("TimeRange", "comments") not in got and cu.j["arg_count"] == 2, {"consume_until_next_kind": "looks at kinds only"}, "C17.R4:consume", "consume_until_next_kind touches comments", lib.where_of(cu))
